@@ -2,6 +2,7 @@ package symgo
 
 import (
 	"fmt"
+	"strings"
 	"go/token"
 	"go/types"
 	"math"
@@ -192,6 +193,11 @@ func (in *Interp) farith(op token.Token, x, y *Term) Value {
 			return BVu(32, uint64(math.Float32bits(r32)))
 		}
 		return BVu(64, math.Float64bits(r))
+	}
+	if in.cfg.ExactFloat {
+		// exact mode: one SMT FloatingPoint operation (round to nearest even), result as bits
+		name := map[token.Token]string{token.ADD: "fp.add", token.SUB: "fp.sub", token.MUL: "fp.mul", token.QUO: "fp.div"}[op]
+		return in.fpConvExact(fmt.Sprintf("(%s RNE %s %s)", name, toFP(x), toFP(y)), x.w, x, y)
 	}
 	// abstract mode: uninterpreted functions over the IEEE bit patterns, with
 	// sound syntactic normalisations (commutativity, a-b = a+(-b), sign of products).
@@ -442,12 +448,24 @@ func (in *Interp) convert(v Value, from, to types.Type) Value {
 	return nil
 }
 
+// fpConvExact: result bits r with (to_fp r) = expr, always with FP semantics
+func (in *Interp) fpConvExact(expr string, w int, deps ...*Term) *Term {
+	// the IEEE bit pattern of the FP-sorted expression, as a deterministic term
+	return Raw(w, "(fp.to_ieee_bv "+expr+")", deps...)
+}
+
 // result bits r with (to_fp r) = expr
 func (in *Interp) fpConv(expr string, w int, deps ...*Term) *Term {
-	r := in.fresh(w, "fpr")
-	c := &Term{w: 0, op: "raw", str: fmt.Sprintf("(= ((_ to_fp %s) %s) %s)", fpSort(w), r, expr), args: append([]*Term{r}, deps...)}
-	in.addPC(c)
-	return r
+	if in.cfg.AbstractConv {
+		// abstract mode: conversions are uninterpreted functions of their operand (per operator and widths)
+		op := expr
+		if i := strings.Index(expr, ")"); i > 0 {
+			op = expr[:i]
+		}
+		name := "conv_" + hexName(op) + fmt.Sprintf("_%d", deps[0].w)
+		return UF(name, w, deps[0])
+	}
+	return Raw(w, "(fp.to_ieee_bv "+expr+")", deps...)
 }
 
 var _ = big.NewInt
